@@ -67,7 +67,12 @@ def run(payload):
         r = dict(id=case['id'])
         try:
             rng = random.Random(case['seed'])
-            spec = finalise(rng, case['spec'])
+            if case.get('fixed_loads'):
+                spec = case['spec']
+                m0_ = gen.build(dict(spec, sources=[], loads=[]))
+                gen.add_sources(rng, spec, len(m0_.pulses), nsrc=1)
+            else:
+                spec = finalise(rng, case['spec'])
             r['spec'] = spec
             m = gen.build(spec)
             items = []
@@ -99,6 +104,17 @@ def run(payload):
                                       h['abs_kr'] = abs(kr)
                       items.append(it)
             r['items'] = items
+            # which pulses are on the list of which object's distributed load (Model/Attach.v)
+            att = {}
+            for kind, attr in (('skin', 'skin_load'), ('ins', 'coat_load')):
+                loaded = [int(g.n) for g in m.geo if getattr(g, attr) is not None]
+                rows = []
+                for p in m.pulses:
+                    on = sorted(int(g.n) for g in m.geo if getattr(g, attr) is not None and any(q is p for q in getattr(g, attr).pulses))
+                    mult = max([sum(1 for q in getattr(g, attr).pulses if q is p) for g in m.geo if getattr(g, attr) is not None] + [0])
+                    rows.append([int(p.geobj.n), int(p.segs[0].geobj.n), int(p.segs[1].geobj.n), on, mult])
+                att[kind] = dict(loaded=loaded, nobj=len(m.geo), pulses=rows)
+            r['attach'] = att
             r['requiv'] = [[hx(g.r_orig), hx(g.coat_load.radius), hx(g.coat_load.epsilon_r), hx(g.r)]
                            for g in m.geo if g.coat_load is not None]
             r['media'] = [[bool(md.is_ideal), hx(f), hx(md.permittivity), hx(md.conductivity), hxc(md.impedance(f))]
